@@ -96,7 +96,7 @@ def run_path(eng, contract, types, src):
                     raise RuntimeError("vacuous: requires of %s is unsatisfiable" % contract.key)
             eng.env0 = dict(env)
             eng.heap0 = dict(eng.heap)
-            eng.lists0 = {k: list(v) for k, v in eng.lists.items()}
+            eng.lists0 = eng.snapshot_lists()
             outcome = None
             try:
                 eng.exec_block(node.body)
@@ -111,12 +111,31 @@ def run_path(eng, contract, types, src):
             return 0
         if not eng.feasible():
             return 0
+        try:
+            return post_state(eng, contract, src, outcome)
+        except PyRaise as e:
+            # a clause is not well defined on this path (its evaluation raises): undecided, never a crash
+            from .engine import Obligation
+            ob = Obligation(sh.func_name, sh.variant_name, "clause_defined", "clause evaluation raised %s" % e.cls.__name__, e.line)
+            ob.status = "unknown"
+            ob.backend = "executor"
+            sh.obligations.append(ob)
+            return 1
+    finally:
+        eng.frames.clear()
+
+
+def post_state(eng, contract, src, outcome):
+    sh = eng.sh
+    if True:
         if outcome[0] == "return":
             sh.exits["return"] = sh.exits.get("return", 0) + 1
             env = eng.frames[0].env
             # use entry values of parameters in clauses unless re-bound: clauses refer to parameters by name;
             # python code may have re-assigned them, so restore the entry bindings for clause evaluation
-            post_env = dict(env)
+            # clauses see the entry values of the parameters, `result`, and the contract file's names only
+            # (locals of the function must not shadow spec functions)
+            post_env = {}
             for p, v in eng.env0.items():
                 post_env["_final_" + p] = env.get(p, v)
                 post_env[p] = v
@@ -131,8 +150,7 @@ def run_path(eng, contract, types, src):
             e = outcome[1]
             sh.exits["raise " + e.cls.__name__] = sh.exits.get("raise " + e.cls.__name__, 0) + 1
             env = eng.frames[0].env
-            post_env = dict(env)
-            post_env.update(eng.env0)
+            post_env = dict(eng.env0)
             eng.frames[0].env = post_env
             whens = [w for (exc, w) in contract.raises if isinstance(e.cls, type) and issubclass(e.cls, exc)]
             if whens:
@@ -141,8 +159,6 @@ def run_path(eng, contract, types, src):
                 return 1
             eng.prove(z3.BoolVal(False), "no_exception", "%s" % (e.cls.__name__,), e.line, assume_after=False)
             return 0
-    finally:
-        eng.frames.clear()
 
 
 def aggregate(results):
